@@ -4,6 +4,7 @@ from ..corpus import load, load_kf, load_repo_tests, load_repo_examples
 from ..docgen import load_repo_docs
 from ..crossgen import load_cross
 from ..modgen import load_modseq
+from ..traitgen import load_traitseq
 from ..common import CheckError
 from ..wrules import last_seg, impl_methods
 from ..wrules import check_trait_forwarding, check_implblock, check_inversion_traits
@@ -17,6 +18,8 @@ def run(tier):
     loaded += [(cfg, load_cross(rep, cfg, tier)) for cfg in configs]
     # script-enumerated impl-block item sequences (vlib/modgen.py)
     loaded.append(("plain", load_modseq(rep, "plain", tier)))
+    # script-enumerated traits with a delegation target (vlib/traitgen.py, selectors `target` / `target_ref`)
+    loaded.append(("plain", load_traitseq(rep, "plain", tier)))
     if tier == "thorough":
         loaded.append(("unimock_test", load_repo_tests(rep)))
         loaded += [("unimock_test", ld) for ld in load_repo_examples(rep)]
